@@ -124,7 +124,7 @@ def apply_rule(mirror, rule):
             new, facts = rewrite_x86_asm(src, rule['count'])
         except ValueError as e:
             return False, str(e)
-        open(path, 'w').write(new)
+        open(path, 'w').write('#include <verif/x86_insn.h>\t/* inserted by the x86asm rewrite: the rewritten header is self-contained */\n' + new)
         rule['facts'] = facts
         return True, '%d asm statements replaced by instruction contracts' % len(facts)
     if kind == 'loop':
